@@ -553,3 +553,50 @@ VARIANTS += [
      "new": "        if transfer.done():\n            return\n        if packet_id in transfer.chunks:\n            return\n"
             "        transfer.chunks[packet_id] = packet_data\n"},
 ]
+
+# ---------------------------------------------------------------------- round 7
+MSGHANDLER = "hippolyzer/lib/base/message/message_handler.py"
+_LLSD_SER_OLD = "        # Don't include the XML header\n        return llsd.format_xml(val).split(b\">\", 1)[1].decode(\"utf8\") + \"\\n|\"\n"
+_LLSD_DES_OLD = "        return llsd.parse_xml(val.partition(\"|\")[0].encode(\"utf8\"))\n"
+_UNDEF = "<llsd><undef /></llsd>"
+
+VARIANTS += [
+    {"name": "R2 constant fast path taken for every falsy metadata value", "file": SCHEMA, "expect": "C20.R2",
+     "old": _LLSD_SER_OLD,
+     "new": "        if not val:\n            return \"" + _UNDEF + "\\n|\"\n" + _LLSD_SER_OLD},
+    {"name": "R2 reader fast path restores another value than the writer's", "expect": "C20.R2",
+     "edits": [{"file": SCHEMA, "old": _LLSD_SER_OLD,
+                "new": "        if val is None:\n            return \"" + _UNDEF + "\\n|\"\n" + _LLSD_SER_OLD},
+               {"file": SCHEMA, "old": _LLSD_DES_OLD,
+                "new": "        val = val.partition(\"|\")[0].strip()\n        if val == \"" + _UNDEF + "\":\n            return {}\n"
+                       "        return llsd.parse_xml(val.encode(\"utf8\"))\n"}]},
+    {"name": "P R2 constant fast path for the absent value on both sides", "expect": "silent",
+     "edits": [{"file": SCHEMA, "old": _LLSD_SER_OLD,
+                "new": "        if val is None:\n            return \"" + _UNDEF + "\\n|\"\n" + _LLSD_SER_OLD},
+               {"file": SCHEMA, "old": _LLSD_DES_OLD,
+                "new": "        val = val.partition(\"|\")[0].strip()\n        if val == \"" + _UNDEF + "\":\n            return None\n"
+                       "        return llsd.parse_xml(val.encode(\"utf8\"))\n"}]},
+    {"name": "R14 subscriber queue gets a capacity", "file": MSGHANDLER, "expect": "C20.R14",
+     "old": "        msg_queue = asyncio.Queue()\n", "new": "        msg_queue = asyncio.Queue(128)\n"},
+    {"name": "R14 handler skips enqueueing under load", "file": MSGHANDLER, "expect": "C20.R14",
+     "old": "            msg_queue.put_nowait(message)\n",
+     "new": "            if msg_queue.qsize() < 1000:\n                msg_queue.put_nowait(message)\n"},
+    {"name": "P R14 handler logs, then enqueues on both branches", "file": MSGHANDLER, "expect": "silent",
+     "old": "            if take:\n                message = message.take()\n            msg_queue.put_nowait(message)\n",
+     "new": "            if take:\n                msg_queue.put_nowait(message.take())\n            else:\n"
+            "                msg_queue.put_nowait(message)\n"},
+    {"name": "P R4 chunk table built by a module-level comprehension helper", "expect": "silent",
+     "edits": [{"file": XFER, "old": "class Xfer:\n",
+                "new": "def _cut(buf):\n    return {n: buf[o:o + MAX_CHUNK_SIZE] for n, o in enumerate(range(0, len(buf), MAX_CHUNK_SIZE))}\n\n\nclass Xfer:\n"},
+               {"file": XFER, "old": _SENDER_LOOP_OLD, "new": "            self.chunks = _cut(data)\n"}]},
+    {"name": "R4 comprehension helper fed the payload before the prefix", "expect": "C20.R4",
+     "edits": [{"file": XFER, "old": "class Xfer:\n",
+                "new": "def _cut(buf):\n    return {n: buf[o:o + MAX_CHUNK_SIZE] for n, o in enumerate(range(0, len(buf), MAX_CHUNK_SIZE))}\n\n\nclass Xfer:\n"},
+               {"file": XFER, "old": _PREFIX_COMMENT, "new": "            self.chunks = _cut(data)\n" + _PREFIX_COMMENT},
+               {"file": XFER, "old": _SENDER_LOOP_OLD, "new": ""}]},
+    {"name": "R3 comprehension-built dispatch table over a class list missing one node type", "expect": "C20.R3",
+     "edits": [{"file": INV, "old": _MODEL_READER_OLD, "new": _MODEL_READER_TABLE},
+               {"file": INV, "old": _TYPES_LINE,
+                "new": _TYPES_LINE + "_TEXT_NODE_TYPES = (InventoryObject, InventoryItem)\n"
+                                     "_READERS = {t.SCHEMA_NAME: t for t in _TEXT_NODE_TYPES}\n"}]},
+]
